@@ -171,6 +171,8 @@ impl std::ops::AddAssign<&BalanceCarrier> for Balance {
 
         // Aggregation by EPB service
         for (&service, &used_epb_for_service) in &rhs.used.epus_by_srv_an {
+            #[cfg(feature = "verif_hooks")]
+            crate::verif_hooks::observe("balance::add_assign::service", format!("{}|{}", rhs.carrier, service));
             // Energy use
             *self.used.epus_by_srv.entry(service).or_default() += used_epb_for_service;
             // Step A
@@ -193,13 +195,19 @@ impl std::ops::AddAssign<&BalanceCarrier> for Balance {
 
         // Aggregation by energy source
         for (source, produced) in &rhs.prod.by_src_an {
+            #[cfg(feature = "verif_hooks")]
+            crate::verif_hooks::observe("balance::add_assign::by_src", format!("{}|{}", rhs.carrier, source));
             *self.prod.by_src.entry(*source).or_default() += produced;
         }
         for (source, produced) in &rhs.prod.epus_by_src_an {
+            #[cfg(feature = "verif_hooks")]
+            crate::verif_hooks::observe("balance::add_assign::epus_by_src", format!("{}|{}", rhs.carrier, source));
             *self.prod.epus_by_src.entry(*source).or_default() += produced;
         }
 
         for (source, epus_by_srv_for_src) in &rhs.prod.epus_by_srv_by_src_an {
+            #[cfg(feature = "verif_hooks")]
+            crate::verif_hooks::observe("balance::add_assign::epus_by_srv_by_src", format!("{}|{}", rhs.carrier, source));
             let hash_srv = self.prod.epus_by_srv_by_src.entry(*source).or_default();
             for (service, epus_for_srv_for_src) in epus_by_srv_for_src {
                 *hash_srv.entry(*service).or_default() += epus_for_srv_for_src;
